@@ -4,3 +4,5 @@ import MambaVerif.Props.C03
 import MambaVerif.Props.C10
 import MambaVerif.Props.C20
 import MambaVerif.Props.C01
+import MambaVerif.Props.C11
+import MambaVerif.Props.C02
